@@ -590,13 +590,19 @@ STRAT_ALL = [EAGER, [True, True, "lmap", True], [True, True, "vmap", True], [Tru
 # relative tolerance per form: tight solver options -> round-off of the solver (measured 1e-13 .. 1e-15 on
 # the clean tree); no option given -> both flavours use the default criterion: solver accuracy
 STRAT_TOL = {"lin:absdelta": 1e-9, "lin:resnorm": 1e-9, "lin:both": 1e-9, "lin:neither": 1e-3,
-             "nl:xtol": 1e-9, "nl:absdelta": 1e-9, "nl:both": 1e-9, "nl:neither": 1e-6}
+             "nl:xtol": 1e-9, "nl:absdelta": 1e-9, "nl:both": 1e-9, "nl:neither": 1e-6,
+             # non-default miniter / maxiter: the number of steps is fixed by the bounds (clean tree: <= 2.3e-14)
+             "lin:miniter": 1e-9, "lin:maxiter": 1e-9, "lin:miniter_abs": 1e-9,
+             "nl:miniter": 1e-9, "nl:miniter1": 1e-9, "nl:miniter_abs": 1e-9, "nl:maxiter": 1e-9}
 
 
 def strategy_entries(ctx):
     if not ctx.quick:
+        few = [EAGER, [True, True, "lmap", True], [True, True, "vmap", True], [True, False, "smap", True]]
         return ([["lin", f, STRAT_ALL] for f in ("absdelta", "resnorm", "both", "neither")]
-                + [["nl", f, STRAT_ALL] for f in ("xtol", "absdelta", "both", "neither")])
+                + [["nl", f, STRAT_ALL] for f in ("xtol", "absdelta", "both", "neither")]
+                + [["lin", f, few] for f in ("miniter", "maxiter", "miniter_abs")]
+                + [["nl", f, few] for f in ("miniter", "miniter1", "miniter_abs", "maxiter")])
     r = ctx.seed % 3
     rot = [[True, True, "lmap", True], [True, True, "vmap", True], [True, False, "smap", True]]
     return [["lin", "absdelta", [EAGER, rot[r], [False, False, "lmap", False]]],
@@ -604,7 +610,9 @@ def strategy_entries(ctx):
             ["lin", "both", [EAGER, rot[(r + 2) % 3]]],
             ["lin", "neither", [EAGER, rot[r]]],
             ["nl", "xtol", [EAGER, rot[(r + 1) % 3]]],
-            ["nl", "absdelta", [EAGER, rot[r]]]]
+            ["nl", "absdelta", [EAGER, rot[r]]],
+            ["nl", ["miniter", "miniter1"][ctx.seed % 2], [EAGER, rot[(r + 2) % 3]]],
+            ["lin", ["maxiter", "miniter", "miniter_abs"][r], [EAGER, rot[(r + 1) % 3]]]]
 
 
 def resume_entries(ctx):
